@@ -39,6 +39,12 @@ def validate(wdname, trace_module, traces, modules, invariants=("Ok", "TermOut",
             acc.add(p[1])
         elif p[0] == "TERM":
             terms[p[1]] = p[2]
+    if res.unparsed_prints:
+        raise MachineryError("trace validation %s: %d PrintT values could not be parsed, e.g. %s" % (wdname, res.unparsed_prints, res.unparsed_text))
+    # structure-only traces that were accepted must have exported their term
+    for t in acc:
+        if traces[t - 1][0].get("num") is False and t not in terms:
+            raise MachineryError("trace validation %s: accepted structure-only trace %d exported no TERM" % (wdname, t))
     # every trace must have a verdict
     for t in range(1, len(traces) + 1):
         if t not in bad and t not in acc:
